@@ -24,9 +24,28 @@ def shard(kind, n_cases, n_jobs, timeout=900, **params):
     return jobs
 
 
+EDGE_CONFIGS = {
+    # (L / mol: the coarsest documented storage units - what a mass request was rounded on; L / umol: unequal prefixes with
+    # litres, where a stored digit of the volume is 4e-7 of a 250 uL stock; zero-volume solids and enzymes)
+    'coarse_storage': ({'volume_storage_unit': 'L', 'moles_storage_unit': 'mol'}, [26, 10, 19]),
+    'L_umol': ({'volume_storage_unit': 'L', 'moles_storage_unit': 'umol'}, [19, 8, 26, 21]),
+    'zero_volume': ({'default_solid_density': 'inf', 'default_enzyme_density': 'inf'}, [27, 22, 24]),
+}
+
+
 def edges_jobs(tier):
-    """The directed edge families of pv/edges.py: 20 families x 3 (quick) or x 40 (thorough) cases."""
-    return shard('edges', 60, 3) if tier == 'quick' else shard('edges', 800, 8)
+    """The directed edge families of pv/edges.py: 28 families x 3 (quick) or x 40 (thorough) cases, and the families that
+    are about a configuration under that configuration."""
+    jobs = shard('edges', 84, 3) if tier == 'quick' else shard('edges', 1120, 8)
+    for k, (tag, (cfg, only)) in enumerate(EDGE_CONFIGS.items()):
+        n = len(only) * (2 if tier == 'quick' else 30)
+        for j in shard('edges', n, 1 if tier == 'quick' else 2):
+            j['config'] = cfg
+            j['params'] = {'only': only, 'edge_config': tag}
+            j['lo'] += 7000000 * (k + 1)
+            j['hi'] += 7000000 * (k + 1)
+            jobs.append(j)
+    return jobs
 
 
 def run_cases(job, fn, budget_s=None):
